@@ -33,7 +33,7 @@ CHECKS = {
         "category": "exploration",
         "design_ref": "DESIGN.md section 5.4",
         "technique": "deterministic simulation of the CLI as a process node: real `python -c 'from code_data._cli import main; main()'` processes with seeded interpreter, hash seed, source kind and option subsets, invalid source combinations, and warm re-invocation in one process; stdout compared section by section with an API oracle node of the same version (addresses scrubbed, frozenset listing order canonicalised)",
-        "text": "Seeded search over CLI invocations on CPython 3.7-3.10: source kind {file, -c, -e, -m} x subsets of {--dis, --dis-after, --source, --no-normalize, --json} x valid / invalid source combinations (incl. the empty -c/-e source) x hash seeds; the oracle node renders what the API returns for the same program and the hub compares exit status and every stdout section; the printed JSON is loaded back through from_json_data; --dis-after is compared with the disassembly of the oracle's to_code() and, symbolically, with the original; N warm invocations of main() in one process must print what fresh processes print.",
+        "text": "Seeded search over CLI invocations on CPython 3.7-3.10: source kind {file, -c, -e, -m} x subsets of {--dis, --dis-after, --source, --no-normalize, --json} x valid / invalid source combinations (incl. the empty -c/-e source) x hash seeds; the oracle node renders what the API returns for the same program and the hub compares exit status and every stdout section; the printed JSON is loaded back through from_json_data; --dis-after is compared with the disassembly of the oracle's to_code() and, symbolically, with the original; N warm invocations of main() in one process must print what fresh processes print; the same path rewritten with another program of the same size and (harness-set) modification time must be read afresh.",
         "note": "stdio pinned to UTF-8; rich is absent on 3.7-3.10, so the CLI's own plain-print fallback runs (as the property's observe_at says). I/O faults (closed stdout, unreadable file) are not injected: the property states no behaviour for them.",
     },
     "C06": {
@@ -64,7 +64,7 @@ CHECKS = {
         "engine": "C-header-fault-store",
         "category": "fault_enumeration",
         "design_ref": "DESIGN.md section 6",
-        "technique": "fault injection on state at rest with a detect-or-preserve oracle: every single-bit flip of co_flags, every small delta and swap of the argument counts (exhaustive per base object), seeded multi-bit masks and combinations, applied to stored code objects of seeded programs on CPython 3.7-3.10; flag words alone enumerated (all 2^18 known subsets on 3.9/3.10 in thorough) cold and warm",
+        "technique": "fault injection on state at rest with a detect-or-preserve oracle: every single-bit flip of co_flags, every small delta and swap of the argument counts (exhaustive per base object), the sign bit, deltas on co_nlocals/co_stacksize/co_firstlineno, seeded multi-bit masks and combinations, applied to stored code objects of seeded programs on CPython 3.7-3.10; flag words alone enumerated (all 2^18 known subsets on 3.9/3.10 in thorough) cold and warm; interrupted-history pass (KeyboardInterrupt at every line of the flag/argument conversion code, then re-judge unaltered objects)",
         "text": "Enumerates the header-fault space per base code object (31 single-bit flag flips, 15 count deltas, 3 swaps - complete - plus seeded masks/combos) over seeded families of base objects on four interpreters, and the flag-word space (complete over known-flag subsets on 3.9/3.10 in the thorough tier; every subset with <=3 flags set or clear plus seeded samples on 3.7/3.8 where the IntFlag cache makes conversions quadratic). Oracle is the property's own: from_code raises or to_code() reproduces every header field exactly. The fault space per object is finite and enumerated; the base-object space is sampled.",
         "note": "Trusted: CPython's code constructor (what it refuses to build cannot reach the library and is counted separately); header comparison by the harness. Interpreters run without -O.",
     },
@@ -72,8 +72,8 @@ CHECKS = {
         "engine": "A-history-machine",
         "category": "exploration",
         "design_ref": "DESIGN.md section 4 (4.1-4.4, 4.7)",
-        "technique": "deterministic simulation: seeded operation/fault histories on a pool of live objects with a shadow model; seeded line-level pre-emption of 2-3 real caller threads (baton passing under sys.settrace); abort injection at a seeded line; hostile-caller scribbling and aliasing",
-        "text": "Seeded search over histories of API calls on shared live objects in real CPython 3.7-3.10 processes, with aliasing, scribbling on returned documents, aborts at arbitrary lines and line-level pre-emption of concurrent callers; after every step a shadow model checks that argument snapshots never change, the n-th result equals the first, results share no mutable container with arguments or other documents, and (sampled) the result equals what a pristine second copy of the library - fresh module-level state, no history - returns for an equal argument. Sampling, not proof: the right level for a purity claim over all call sequences of a library with one process-global cache and caller-owned mutable JSON.",
+        "technique": "deterministic simulation: seeded operation/fault histories on a pool of live objects with a shadow model; seeded line-level pre-emption of 2-3 real caller threads (baton passing under sys.settrace); abort injection at a seeded line and abort sweeps over every line of small calls; hostile-caller scribbling and aliasing; first-use faults against a virgin copy of the library; pristine-library reference; per-run ambient interpreter settings with an ambient-state invariant",
+        "text": "Seeded search over histories of API calls on shared live objects in real CPython 3.7-3.10 processes, with aliasing, scribbling on returned documents, aborts at arbitrary lines and line-level pre-emption of concurrent callers; after every step a shadow model checks that argument snapshots never change, the n-th result equals the first, results share no mutable container with arguments or other documents, (sampled) the result equals what a pristine second copy of the library - fresh module-level state, no history - returns for an equal argument, a first use that is aborted or run by two callers at once leaves a virgin copy of the library usable, and interpreter-global settings (digit limit, recursion limit, gc, cwd, environ, trace hooks, stdio, warnings filters, signal handler) are the same before and after every call. Sampling, not proof: the right level for a purity claim over all call sequences of a library with one process-global cache and caller-owned mutable JSON.",
         "note": "Trusted: the harness's structural fingerprints (sim/fp.py), CPython's immutability of code objects and str, sys.settrace line events as pre-emption points (C-level atomicity not subdivided). Interpreters run without -O.",
     },
 }
